@@ -468,7 +468,9 @@ ServerWrite(env) ==
            /\ G("wire", RespHdrConst(env, x))
            /\ \/ \* explicit header
                  /\ env.b = 0 /\ env.t = 0 /\ env.s = 0
-                 /\ G("wire", x.hdrQ /\ ~x.hdrW)
+                 /\ G("wire", x.hdrQ)
+                 \* (after the first envelope it is too late: the caller's Header() is what the first envelope carried - C04, C06)
+                 /\ ("wire" \in Off \/ "md" \in Off \/ ~x.hdrW) = TRUE
                  /\ G("md", md = x.hdrQmd)
                  /\ hnds' = [hnds EXCEPT ![h].hdrW = TRUE, ![h].hdrQ = FALSE]
               \/ \* message
